@@ -25,6 +25,7 @@ EXPLANATION = (
   " (MEMO-key) the interval / activity caches are not keyed by value objects;"
   ' (ORD-children) the children of an ISD element are produced in document order; (ORD-display) display=none prunes the element before its children are visited;'
   ' (REG-repoint) an element whose region is replaced in the document is re-pointed at the replacing region object;'
+  ' (CLONE-prune) the per-region clone leaves content out by region association only, never because of a specified style value that animation could change;'
 )
 RULE_TEXT = "per guard x ordering table, per grid, per call site, per truth table"
 UNDECIDED = ["interval arithmetic under arbitrary nesting as values", "text appears once each, in document order, nothing moved between regions (data dependent)",
@@ -147,4 +148,6 @@ def run(ctx):
   from . import c15 as _c15
   from ..modelfacts import ModelFacts as _MF
   _c15.check_registry(ctx, _MF(ctx.ix))
+  ncp = isdrules.check_clone_pruning(ctx)
+  ctx.floor("CLONE-prune", "pruning guards of the per-region clone", ncp, 1)
   common.check_history_independence(ctx, common.CORE)
